@@ -465,7 +465,10 @@ theorem step_tr (e : Env) (s : St) (sp : Spec) (op : Op) (hf : nf = true → op.
     have hclear : Tr e nf true s sp (clearAll s) Spec.init := by
       have hsame : AllocSame s (clearAll s) := by
         unfold clearAll
-        exact AllocSame.trans ⟨rfl, rfl, rfl⟩ (AllocSame.of_tables (dropAll_tables _ _))
+        have h2 := AllocSame.of_tables (dropAll_tables s.data
+          ({ ({ s with fds := s.fds - s.handles.length, handles := [], cookies := [] } : St) with
+            data := [], byId := [], byHandle := [] } : St))
+        exact ⟨h2.devMap, h2.nextUid, h2.nextVirt⟩
       unfold clearAll
       apply Tr.clear
       · rw [data_of_tables (dropAll_tables _ _)]
